@@ -236,7 +236,7 @@ def exchange (opt : Bool) (r : Req) (p : Plan) : Nat â†’ Bytes â†’ Option Dic â†
     if Â¬ q.valid then (last, { code := 0, proto := sHttp11, headers := [], body := [], sockError := sBadRecv }) else
     let s := serve1 opt q p [] sBase
     let seen := if s.called then some q else last
-    let (resp, _) := readResponse (Inp.ofBytes s.wire)
+    let (resp, _) := readResponse (Inp.ofBytes (interimOf q.headers ++ s.wire))
     if r.follow âˆ§ isRedirect resp.code then
       let loc := header resp.headers sLocation
       let target' := if startsWith loc sBase then loc.drop sBase.length else loc
